@@ -1,5 +1,5 @@
 SPECIFICATION GSpec
-CONSTANT MODES = {"consult", "assertz"}
+CONSTANT MODES = {"init"}
 CHECK_DEADLOCK FALSE
 INVARIANT Emit
 CONSTRAINT Bound
